@@ -7,6 +7,18 @@ pub fn materialize(spec: &str) -> Option<Vec<u8>> {
     if let Some(rest) = spec.strip_prefix("hist:") {
         return Some(rest.as_bytes().to_vec());
     }
+    if let Some(rest) = spec.strip_prefix("census:ops:") {
+        return op_census_module(rest.parse().ok()?);
+    }
+    if let Some(rest) = spec.strip_prefix("census:gcedge:") {
+        return gcedge_op_module(rest.parse().ok()?);
+    }
+    if let Some(rest) = spec.strip_prefix("census:attr:") {
+        return attr_modules().get(rest.parse::<usize>().ok()?).cloned();
+    }
+    if let Some(rest) = spec.strip_prefix("census:alone:") {
+        return op_alone_module(rest.parse().ok()?);
+    }
     if spec.starts_with("leb:") {
         return materialize_leb(spec);
     }
@@ -130,4 +142,754 @@ pub fn hist_random(seed: u64, n: usize, len: usize) -> Vec<String> {
         }
     }
     out
+}
+
+// ------------------------------------------------------------------------------------------------
+// Operator census (C03, C20, C02): every operator the reference validator accepts, each with
+// boundary immediates, one function per variant.
+// ------------------------------------------------------------------------------------------------
+
+use crate::ops::{self, Imm};
+use crate::optable::{self, OpEntry};
+use std::sync::OnceLock;
+use wasmparser::{BlockType, HeapType, MemArg};
+
+pub const PAD: u32 = 130;
+
+/// Environment with at least 130 entities in every index space that instructions can name.
+fn census_env() -> MSpec {
+    let mut m = MSpec::default();
+    m.types.push((vec![], vec![])); // 0
+    m.types.push((vec![VT::I32], vec![VT::I32])); // 1
+    m.types.push((vec![VT::I32, VT::I64], vec![VT::F32, VT::F64])); // 2
+    for _ in 0..PAD {
+        m.funcs.push(FuncSpec { ty: 0, locals: vec![], code: vec![0x0b] });
+    }
+    m.tables.push(TableTy { elem: VT::FuncRef, lim: Limits::new(10, None) });
+    m.tables.push(TableTy { elem: VT::ExternRef, lim: Limits::new(10, None) });
+    m.tables.push(TableTy { elem: VT::FuncRef, lim: Limits::new(5, Some(20)) });
+    m.memories.push(Limits { min: 1, max: None, shared: false, is64: false });
+    m.memories.push(Limits { min: 1, max: None, shared: false, is64: true });
+    m.memories.push(Limits { min: 1, max: Some(2), shared: true, is64: false });
+    for (i, t) in ALL_TYPES.iter().enumerate() {
+        let init = match t {
+            VT::I32 => CExpr::I32(i as i32),
+            VT::I64 => CExpr::I64(i as i64),
+            VT::F32 => CExpr::F32(0),
+            VT::F64 => CExpr::F64(0),
+            VT::V128 => CExpr::V128([0; 16]),
+            t => CExpr::RefNull(*t),
+        };
+        m.globals.push((GlobalTy { ty: *t, mutable: true }, init));
+    }
+    while (m.globals.len() as u32) <= PAD {
+        let i = m.globals.len() as i32;
+        m.globals.push((GlobalTy { ty: VT::I32, mutable: true }, CExpr::I32(i)));
+    }
+    m.elems.push(ElemSpec { mode: ElemMode::Declared, ty: VT::FuncRef, items: ElemItems::Funcs(vec![0, 1, PAD - 1]), explicit_table: false });
+    m.elems.push(ElemSpec { mode: ElemMode::Passive, ty: VT::FuncRef, items: ElemItems::Funcs(vec![0]), explicit_table: false });
+    m.elems.push(ElemSpec { mode: ElemMode::Passive, ty: VT::ExternRef, items: ElemItems::Exprs(vec![CExpr::RefNull(VT::ExternRef)]), explicit_table: false });
+    while (m.elems.len() as u32) <= PAD {
+        m.elems.push(ElemSpec { mode: ElemMode::Passive, ty: VT::FuncRef, items: ElemItems::Funcs(vec![]), explicit_table: false });
+    }
+    for i in 0..=PAD {
+        m.datas.push(DataSpec { mode: DataMode::Passive, bytes: vec![i as u8], explicit_mem: false });
+    }
+    m.data_count = Some(true);
+    m
+}
+
+#[derive(Clone, Debug)]
+pub struct CensusFunc {
+    pub op: &'static str,
+    pub variant: String,
+    pub params: Vec<VT>,
+    pub results: Vec<VT>,
+    /// encoded body including the final end; uses 131 extra i32 locals declared as one group
+    pub code: Vec<u8>,
+}
+
+const EXTRA_LOCALS: u32 = 131;
+
+fn body_for(params: &[VT], op_bytes: &[u8], wrap: usize, tail_unreachable: bool) -> Vec<u8> {
+    let mut c = Code::new();
+    for _ in 0..wrap {
+        c.block(&BT::Empty);
+    }
+    for i in 0..params.len() {
+        c.local_get(i as u32);
+    }
+    c.raw(op_bytes);
+    if tail_unreachable {
+        c.unreachable();
+    }
+    for _ in 0..wrap {
+        c.end_();
+    }
+    c.end()
+}
+
+fn env_with(env: &MSpec, params: &[VT], results: &[VT], code: Vec<u8>) -> Vec<u8> {
+    let mut m = env.clone();
+    let t = m.ty(params, results);
+    m.funcs.push(FuncSpec { ty: t, locals: vec![(EXTRA_LOCALS, VT::I32)], code });
+    m.encode()
+}
+
+fn combos3() -> Vec<Vec<VT>> {
+    let mut v: Vec<Vec<VT>> = vec![vec![]];
+    for a in ALL_TYPES {
+        v.push(vec![a]);
+    }
+    for a in ALL_TYPES {
+        for b in ALL_TYPES {
+            v.push(vec![a, b]);
+        }
+    }
+    for a in ALL_TYPES {
+        for b in ALL_TYPES {
+            for c in ALL_TYPES {
+                v.push(vec![a, b, c]);
+            }
+        }
+    }
+    v
+}
+
+/// Find parameter types under which `op_bytes` validates inside the census environment.
+fn find_sig(env: &MSpec, op_bytes: &[u8], wrap: usize, hints: &[Vec<VT>]) -> Option<(Vec<VT>, Vec<VT>)> {
+    let try_params = |p: &Vec<VT>| -> Option<Vec<VT>> {
+        if !optable::valid(&env_with(env, p, &[], body_for(p, op_bytes, wrap, true))) {
+            return None;
+        }
+        if wrap == 0 {
+            for r in std::iter::once(vec![]).chain(ALL_TYPES.iter().map(|t| vec![*t])) {
+                if optable::valid(&env_with(env, p, &r, body_for(p, op_bytes, 0, false))) {
+                    return Some(r);
+                }
+            }
+        }
+        Some(vec![])
+    };
+    for h in hints {
+        if let Some(r) = try_params(h) {
+            return Some((h.clone(), r));
+        }
+    }
+    static C: OnceLock<Vec<Vec<VT>>> = OnceLock::new();
+    for p in C.get_or_init(combos3) {
+        if let Some(r) = try_params(p) {
+            return Some((p.clone(), r));
+        }
+    }
+    None
+}
+
+fn variants_for(e: &OpEntry) -> Vec<(String, Imm)> {
+    let mut out: Vec<(String, Imm)> = Vec::new();
+    let base = {
+        let mut i = Imm::default();
+        i.memarg = MemArg { align: if e.exact_align { e.max_align } else { 0 }, max_align: e.max_align, offset: 0, memory: 0 };
+        if e.info.fields.iter().any(|f| f.0 == "type_index") {
+            i = i.set("type_index", 0);
+        }
+        i
+    };
+    out.push(("default".into(), base.clone()));
+    for (fname, fty) in &e.info.fields {
+        match (*fname, *fty) {
+            ("function_index", _) => {
+                for v in [1u32, PAD - 1, PAD] {
+                    out.push((format!("func={}", v), base.clone().set("function_index", v)));
+                }
+            }
+            ("global_index", _) => {
+                for v in [1u32, 2, 3, 4, 5, 6, 127, 128, PAD] {
+                    out.push((format!("global={}", v), base.clone().set("global_index", v)));
+                }
+            }
+            ("table_index", _) | ("table", _) | ("src_table", _) | ("dst_table", _) => {
+                for v in [1u32, 2] {
+                    out.push((format!("{}={}", fname, v), base.clone().set(fname, v)));
+                }
+                if *fname == "dst_table" {
+                    out.push(("tables=2,2".into(), base.clone().set("dst_table", 2).set("src_table", 2)));
+                    out.push(("tables=0,2".into(), base.clone().set("dst_table", 0).set("src_table", 2)));
+                }
+            }
+            ("mem", _) | ("src_mem", _) | ("dst_mem", _) => {
+                for v in [1u32, 2] {
+                    out.push((format!("{}={}", fname, v), base.clone().set(fname, v)));
+                }
+                if *fname == "dst_mem" {
+                    out.push(("mems=1,1".into(), base.clone().set("dst_mem", 1).set("src_mem", 1)));
+                    out.push(("mems=2,0".into(), base.clone().set("dst_mem", 2).set("src_mem", 0)));
+                    out.push(("mems=1,0".into(), base.clone().set("dst_mem", 1).set("src_mem", 0)));
+                }
+            }
+            ("type_index", _) => {
+                for v in [1u32, 2] {
+                    out.push((format!("type={}", v), base.clone().set("type_index", v)));
+                }
+            }
+            ("data_index", _) => {
+                for v in [1u32, 127, 128, PAD] {
+                    out.push((format!("data={}", v), base.clone().set("data_index", v)));
+                }
+            }
+            ("elem_index", _) => {
+                for v in [1u32, 2, 127, 128, PAD] {
+                    out.push((format!("elem={}", v), base.clone().set("elem_index", v)));
+                }
+            }
+            ("local_index", _) => {
+                for v in [1u32, 127, 128, EXTRA_LOCALS - 1] {
+                    out.push((format!("local={}", v), base.clone().set("local_index", v)));
+                }
+            }
+            ("relative_depth", _) => {
+                for v in [1u32, 2] {
+                    out.push((format!("depth={}", v), base.clone().set("relative_depth", v)));
+                }
+            }
+            (_, "memarg") => {
+                let aligns: Vec<u8> = if e.exact_align { vec![e.max_align] } else { (0..=e.max_align).collect() };
+                for a in &aligns {
+                    for off in [0u64, 1, 0x7f, 0x80, 0x8000_0000, 0xffff_ffff] {
+                        if *a == base.memarg.align && off == 0 {
+                            continue;
+                        }
+                        let mut i = base.clone();
+                        i.memarg = MemArg { align: *a, max_align: e.max_align, offset: off, memory: 0 };
+                        out.push((format!("align={} offset={:#x}", a, off), i));
+                    }
+                }
+                for off in [0u64, 0xffff_ffff, 0x1_0000_0000, 0x8000_0000_0000_0000, u64::MAX] {
+                    let mut i = base.clone();
+                    i.memarg = MemArg { align: e.max_align, max_align: e.max_align, offset: off, memory: 1 };
+                    out.push((format!("mem64 offset={:#x}", off), i));
+                }
+                for off in [0u64, 0xffff_ffff] {
+                    let mut i = base.clone();
+                    i.memarg = MemArg { align: e.max_align, max_align: e.max_align, offset: off, memory: 2 };
+                    out.push((format!("mem=2 offset={:#x}", off), i));
+                }
+            }
+            ("lane", _) => {
+                for v in 1..e.lanes {
+                    let mut i = base.clone();
+                    i.lane = v;
+                    out.push((format!("lane={}", v), i));
+                }
+            }
+            ("lanes", _) => {
+                for (n, pat) in [("identity", (0u8..16).collect::<Vec<_>>()), ("max", vec![31u8; 16]), ("mixed", vec![0, 31, 1, 30, 2, 29, 3, 28, 16, 15, 17, 14, 18, 13, 19, 12])] {
+                    let mut i = base.clone();
+                    i.lanes.copy_from_slice(&pat);
+                    out.push((format!("shuffle={}", n), i));
+                }
+            }
+            ("value", "i32") => {
+                for v in [0i32, 1, -1, i32::MIN, i32::MAX, 63, 64, -64, -65, 0x2000, -0x2001] {
+                    let mut i = base.clone();
+                    i.i32v = v;
+                    out.push((format!("i32={}", v), i));
+                }
+            }
+            ("value", "i64") => {
+                for v in [0i64, 1, -1, i64::MIN, i64::MAX, 63, 64, -65, 0x1_0000_0000, -0x8000_0001] {
+                    let mut i = base.clone();
+                    i.i64v = v;
+                    out.push((format!("i64={}", v), i));
+                }
+            }
+            ("value", "f32") => {
+                for v in [0u32, 0x8000_0000, 0x7f80_0000, 0xff80_0000, 0x7fc0_0000, 0x7fa0_0001, 0xffc1_2345, 0x7f80_0001, 1, 0x3f80_0000] {
+                    let mut i = base.clone();
+                    i.f32v = v;
+                    out.push((format!("f32={:08x}", v), i));
+                }
+            }
+            ("value", "f64") => {
+                for v in [0u64, 1 << 63, 0x7ff0_0000_0000_0000, 0xfff0_0000_0000_0000, 0x7ff8_0000_0000_0000, 0x7ff4_0000_0000_0001, 0xfff8_0000_dead_beef, 0x7ff0_0000_0000_0001, 1] {
+                    let mut i = base.clone();
+                    i.f64v = v;
+                    out.push((format!("f64={:016x}", v), i));
+                }
+            }
+            ("value", "v128") => {
+                for (n, pat) in [("zero", [0u8; 16]), ("ones", [0xff; 16]), ("ramp", [0, 1, 2, 3, 4, 5, 6, 7, 8, 9, 10, 11, 12, 13, 14, 15]), ("hi", [0, 0, 0, 0, 0, 0, 0, 0, 0, 0, 0, 0, 0, 0, 0, 0x80]), ("nan", [0, 0, 0xc0, 0x7f, 1, 0, 0xa0, 0x7f, 0, 0, 0, 0, 0, 0, 0xf8, 0x7f])] {
+                    let mut i = base.clone();
+                    i.v128 = pat;
+                    out.push((format!("v128={}", n), i));
+                }
+            }
+            (_, "valty") => {
+                for t in ALL_TYPES {
+                    let mut i = base.clone();
+                    i.valty = t.wp();
+                    out.push((format!("ty={:?}", t), i));
+                }
+            }
+            (_, "hty") => {
+                let mut i = base.clone();
+                i.hty = HeapType::EXTERN;
+                out.push(("extern".into(), i));
+            }
+            (_, "brtable") => {
+                for (n, ts, d) in [("one", vec![0u32], 1u32), ("many", vec![0, 1, 2, 1, 0, 2], 2), ("long", (0..130u32).map(|x| x % 3).collect(), 0)] {
+                    let mut i = base.clone();
+                    i.targets = ts;
+                    i.default_target = d;
+                    out.push((format!("targets={}", n), i));
+                }
+            }
+            _ => {}
+        }
+    }
+    out
+}
+
+fn structural_funcs() -> Vec<CensusFunc> {
+    // block / loop / if(+else) / else-less if with every block-type form
+    let mut out = Vec::new();
+    let mut bts: Vec<(String, BT, Vec<VT>, Vec<VT>)> = vec![("empty".into(), BT::Empty, vec![], vec![])];
+    for t in ALL_TYPES {
+        bts.push((format!("{:?}", t), BT::Val(t), vec![], vec![t]));
+    }
+    bts.push(("type0".into(), BT::Type(0), vec![], vec![]));
+    bts.push(("type1".into(), BT::Type(1), vec![VT::I32], vec![VT::I32]));
+    bts.push(("type2".into(), BT::Type(2), vec![VT::I32, VT::I64], vec![VT::F32, VT::F64]));
+    for (name, bt, p, r) in &bts {
+        for kind in ["Block", "Loop", "If", "IfNoElse"] {
+            if kind == "IfNoElse" && p != r {
+                continue;
+            }
+            let mut c = Code::new();
+            for t in p {
+                c.zero(*t);
+            }
+            match kind {
+                "Block" => {
+                    c.block(bt);
+                }
+                "Loop" => {
+                    c.loop_(bt);
+                }
+                _ => {
+                    c.i32_const(1).if_(bt);
+                }
+            }
+            // inside: consume params, produce results
+            let produce = |c: &mut Code| {
+                for _ in p {
+                    c.drop_();
+                }
+                for t in r {
+                    c.zero(*t);
+                }
+            };
+            if kind == "IfNoElse" {
+                // params == results: leave them as they are
+            } else {
+                produce(&mut c);
+            }
+            if kind == "If" {
+                c.else_();
+                produce(&mut c);
+            }
+            c.end_();
+            for _ in r {
+                c.drop_();
+            }
+            out.push(CensusFunc { op: if kind == "IfNoElse" { "If" } else { kind }, variant: format!("{} {}", kind, name), params: vec![], results: vec![], code: c.end() });
+        }
+    }
+    out
+}
+
+fn build_census() -> Vec<CensusFunc> {
+    let env = census_env();
+    let mut out = structural_funcs();
+    for e in optable::table().iter() {
+        if matches!(e.info.name, "Block" | "Loop" | "If" | "Else" | "End") {
+            continue;
+        }
+        let has_label = e.info.fields.iter().any(|f| f.0 == "relative_depth" || f.1 == "brtable");
+        let wrap = if has_label { 2 } else { 0 };
+        let mut hints: Vec<Vec<VT>> = vec![e.params.clone()];
+        // 64-bit memory / other entity types change some parameter types
+        let swap = |from: VT, to: VT| -> Vec<VT> { e.params.iter().map(|t| if *t == from { to } else { *t }).collect() };
+        hints.push(swap(VT::I32, VT::I64));
+        if !e.params.is_empty() && e.params[0] == VT::I32 {
+            let mut v = e.params.clone();
+            v[0] = VT::I64;
+            hints.push(v.clone());
+            if v.len() >= 3 {
+                v[2] = VT::I64;
+                hints.push(v);
+            }
+        }
+        for t in ALL_TYPES {
+            hints.push(vec![t]);
+            hints.push(vec![VT::I32, t]);
+            hints.push(vec![VT::I32, t, VT::I32]);
+        }
+        for (vname, imm) in variants_for(e) {
+            let op = ops::make_op(e.index, &imm);
+            let bytes = match optable::encode_op(&op) {
+                Some(b) => b,
+                None => continue,
+            };
+            if let Some((p, r)) = find_sig(&env, &bytes, wrap, &hints) {
+                let tail = wrap > 0 || r.is_empty();
+                // with a result type found, the operator's results are returned (no unreachable needed)
+                let code = if wrap == 0 && !tail { body_for(&p, &bytes, 0, false) } else { body_for(&p, &bytes, wrap, true) };
+                let results = if wrap == 0 && !tail { r } else { vec![] };
+                out.push(CensusFunc { op: e.info.name, variant: vname, params: p, results, code });
+            }
+        }
+    }
+    out
+}
+
+pub fn census_funcs() -> &'static Vec<CensusFunc> {
+    static C: OnceLock<Vec<CensusFunc>> = OnceLock::new();
+    C.get_or_init(|| {
+        let prev = std::panic::take_hook();
+        std::panic::set_hook(Box::new(|_| {}));
+        let r = build_census();
+        std::panic::set_hook(prev);
+        r
+    })
+}
+
+pub const CENSUS_CHUNK: usize = 300;
+
+pub fn op_census_specs() -> Vec<String> {
+    let n = census_funcs().len();
+    (0..(n + CENSUS_CHUNK - 1) / CENSUS_CHUNK).map(|i| format!("census:ops:{}", i)).collect()
+}
+
+/// Module holding the environment and one chunk of census functions (each exported under its variant name).
+pub fn op_census_module(chunk: usize) -> Option<Vec<u8>> {
+    let all = census_funcs();
+    let lo = chunk * CENSUS_CHUNK;
+    if lo >= all.len() {
+        return None;
+    }
+    let hi = (lo + CENSUS_CHUNK).min(all.len());
+    let mut m = census_env();
+    for (k, f) in all[lo..hi].iter().enumerate() {
+        let t = m.ty(&f.params, &f.results);
+        m.funcs.push(FuncSpec { ty: t, locals: vec![(EXTRA_LOCALS, VT::I32)], code: f.code.clone() });
+        if k % 3 == 0 {
+            m.exports.push(Export { name: format!("{} [{}] #{}", f.op, f.variant, lo + k), kind: ExportKind::Func, index: PAD + k as u32 });
+        }
+    }
+    Some(m.encode())
+}
+
+/// One operator alone (default immediates) in an otherwise MVP module: used by the feature check (C20).
+pub fn op_alone_module(op_index_in_table: usize) -> Option<Vec<u8>> {
+    let e = optable::table().get(op_index_in_table)?;
+    if matches!(e.info.name, "Block" | "Loop" | "If" | "Else" | "End") {
+        return None;
+    }
+    let mut imm = Imm::default();
+    imm.memarg = MemArg { align: if e.exact_align { e.max_align } else { 0 }, max_align: e.max_align, offset: 0, memory: 0 };
+    if e.info.fields.iter().any(|f| f.0 == "type_index") {
+        imm = imm.set("type_index", 1);
+    }
+    let op = ops::make_op(e.index, &imm);
+    let bytes = optable::encode_op(&op)?;
+    let mut m = MSpec::default();
+    m.types.push((e.params.clone(), vec![]));
+    m.types.push((vec![], vec![]));
+    m.tables.push(TableTy { elem: VT::FuncRef, lim: Limits::new(1, None) });
+    m.memories.push(Limits::new(1, Some(1)));
+    m.globals.push((GlobalTy { ty: VT::I32, mutable: true }, CExpr::I32(0)));
+    m.elems.push(ElemSpec { mode: ElemMode::Active { table: 0, offset: CExpr::I32(0) }, ty: VT::FuncRef, items: ElemItems::Funcs(vec![0]), explicit_table: false });
+    m.datas.push(DataSpec { mode: DataMode::Active { mem: 0, offset: CExpr::I32(0) }, bytes: vec![1, 2], explicit_mem: false });
+    m.data_count = Some(matches!(e.info.name, "MemoryInit" | "DataDrop"));
+    let code = body_for(&e.params, &bytes, 0, true);
+    m.funcs.push(FuncSpec { ty: 0, locals: vec![(1, VT::I32)], code });
+    m.funcs.push(FuncSpec { ty: 1, locals: vec![], code: vec![0x0b] });
+    m.exports.push(Export { name: e.info.name.to_string(), kind: ExportKind::Func, index: 0 });
+    let b = m.encode();
+    if optable::valid(&b) {
+        Some(b)
+    } else {
+        None
+    }
+}
+
+pub fn op_alone_specs() -> Vec<String> {
+    optable::table().iter().enumerate().filter(|(_, e)| !matches!(e.info.name, "Block" | "Loop" | "If" | "Else" | "End")).map(|(i, _)| format!("census:alone:{}", i)).collect()
+}
+
+// ------------------------------------------------------------------------------------------------
+// Attribute census (C04): entity kind x imported/local x 32/64-bit x shared x limits x every
+// element/data segment encoding x offset forms x item forms.
+// ------------------------------------------------------------------------------------------------
+
+fn attr_modules_build() -> Vec<Vec<u8>> {
+    let mut out: Vec<MSpec> = Vec::new();
+    // --- memories: imported/local x is64 x shared x max, several at once (multi-memory) and alone
+    let mut mems: Vec<Limits> = Vec::new();
+    for is64 in [false, true] {
+        for shared in [false, true] {
+            for max in [None, Some(3u64), Some(65536)] {
+                if shared && max.is_none() {
+                    continue;
+                }
+                for min in [0u64, 1, 3] {
+                    if let Some(m) = max {
+                        if m < min {
+                            continue;
+                        }
+                    }
+                    mems.push(Limits { min, max, shared, is64 });
+                }
+            }
+        }
+    }
+    for (i, l) in mems.iter().enumerate() {
+        for imported in [false, true] {
+            let mut m = MSpec::default();
+            m.types.push((vec![], vec![]));
+            if imported {
+                m.imports.push(Import { module: "env".into(), field: format!("mem{}", i), kind: ImportKind::Memory(*l) });
+            } else {
+                m.memories.push(*l);
+            }
+            m.exports.push(Export { name: "m".into(), kind: ExportKind::Memory, index: 0 });
+            let off = if l.is64 { CExpr::I64(0) } else { CExpr::I32(0) };
+            if l.min > 0 {
+                m.datas.push(DataSpec { mode: DataMode::Active { mem: 0, offset: off }, bytes: vec![i as u8, 1, 2], explicit_mem: i % 2 == 0 });
+            }
+            out.push(m);
+        }
+    }
+    // all memories in one module, imported and local interleaved by kind
+    {
+        let mut m = MSpec::default();
+        for (i, l) in mems.iter().enumerate().filter(|(i, _)| i % 3 == 0) {
+            if i % 2 == 0 {
+                m.imports.push(Import { module: "env".into(), field: format!("mem{}", i), kind: ImportKind::Memory(*l) });
+            } else {
+                m.memories.push(*l);
+            }
+        }
+        for i in 0..m.all_memories().len() as u32 {
+            m.exports.push(Export { name: format!("m{}", i), kind: ExportKind::Memory, index: i });
+        }
+        out.push(m);
+    }
+    // --- tables
+    for elem in [VT::FuncRef, VT::ExternRef] {
+        for max in [None, Some(7u64), Some(0xffff_ffff)] {
+            for min in [0u64, 2, 7] {
+                if max.map(|m| m < min).unwrap_or(false) {
+                    continue;
+                }
+                for imported in [false, true] {
+                    let mut m = MSpec::default();
+                    let t = TableTy { elem, lim: Limits::new(min, max) };
+                    if imported {
+                        m.imports.push(Import { module: "env".into(), field: "tab".into(), kind: ImportKind::Table(t) });
+                    } else {
+                        m.tables.push(t);
+                    }
+                    m.exports.push(Export { name: "t".into(), kind: ExportKind::Table, index: 0 });
+                    out.push(m);
+                }
+            }
+        }
+    }
+    // --- globals: every type x mutability x imported/local x initialiser form
+    {
+        let mut m = MSpec::default();
+        m.types.push((vec![], vec![]));
+        m.funcs.push(FuncSpec { ty: 0, locals: vec![], code: vec![0x0b] });
+        m.funcs.push(FuncSpec { ty: 0, locals: vec![], code: vec![0x01, 0x0b] });
+        for (i, t) in ALL_TYPES.iter().enumerate() {
+            for mutable in [false, true] {
+                m.imports.push(Import { module: "env".into(), field: format!("g{}_{}", i, mutable), kind: ImportKind::Global(GlobalTy { ty: *t, mutable }) });
+            }
+        }
+        let nimp = m.imports.len() as u32;
+        for (i, t) in ALL_TYPES.iter().enumerate() {
+            for mutable in [false, true] {
+                let c = match t {
+                    VT::I32 => CExpr::I32(-7 - i as i32),
+                    VT::I64 => CExpr::I64(i64::MIN + i as i64),
+                    VT::F32 => CExpr::F32(0x7fa0_0001),
+                    VT::F64 => CExpr::F64(0xfff8_0000_dead_beef),
+                    VT::V128 => CExpr::V128([i as u8; 16]),
+                    t => CExpr::RefNull(*t),
+                };
+                m.globals.push((GlobalTy { ty: *t, mutable }, c));
+                // initialised from the immutable imported global of the same type
+                m.globals.push((GlobalTy { ty: *t, mutable }, CExpr::GlobalGet(2 * i as u32)));
+            }
+        }
+        m.globals.push((GlobalTy { ty: VT::FuncRef, mutable: false }, CExpr::RefFunc(0)));
+        m.globals.push((GlobalTy { ty: VT::FuncRef, mutable: true }, CExpr::RefFunc(1)));
+        let total = nimp + m.globals.len() as u32;
+        for i in 0..total {
+            m.exports.push(Export { name: format!("g{}", i), kind: ExportKind::Global, index: i });
+        }
+        out.push(m);
+    }
+    // --- element segments: every flag, offset form and item form
+    {
+        let mut m = MSpec::default();
+        m.types.push((vec![], vec![]));
+        m.imports.push(Import { module: "env".into(), field: "off".into(), kind: ImportKind::Global(GlobalTy { ty: VT::I32, mutable: false }) });
+        m.imports.push(Import { module: "env".into(), field: "fr".into(), kind: ImportKind::Global(GlobalTy { ty: VT::FuncRef, mutable: false }) });
+        m.imports.push(Import { module: "env".into(), field: "er".into(), kind: ImportKind::Global(GlobalTy { ty: VT::ExternRef, mutable: false }) });
+        m.imports.push(Import { module: "env".into(), field: "f".into(), kind: ImportKind::Func(0) });
+        m.imports.push(Import { module: "env".into(), field: "itab".into(), kind: ImportKind::Table(TableTy { elem: VT::FuncRef, lim: Limits::new(8, None) }) });
+        m.tables.push(TableTy { elem: VT::FuncRef, lim: Limits::new(8, None) }); // 1
+        m.tables.push(TableTy { elem: VT::ExternRef, lim: Limits::new(8, None) }); // 2
+        for k in 0..3u8 {
+            m.funcs.push(FuncSpec { ty: 0, locals: vec![], code: vec![0x41, k, 0x1a, 0x0b] });
+        }
+        let fidx = |i: u32| Vec::from([i, 0, 3, 1]);
+        let fexprs = || vec![CExpr::RefFunc(2), CExpr::RefNull(VT::FuncRef), CExpr::GlobalGet(1), CExpr::RefFunc(0)];
+        let eexprs = || vec![CExpr::RefNull(VT::ExternRef), CExpr::GlobalGet(2)];
+        for (table, tty) in [(0u32, VT::FuncRef), (1, VT::FuncRef), (2, VT::ExternRef)] {
+            for offset in [CExpr::I32(1), CExpr::GlobalGet(0)] {
+                if tty == VT::FuncRef {
+                    m.elems.push(ElemSpec { mode: ElemMode::Active { table, offset: offset.clone() }, ty: tty, items: ElemItems::Funcs(fidx(1)), explicit_table: false });
+                    m.elems.push(ElemSpec { mode: ElemMode::Active { table, offset: offset.clone() }, ty: tty, items: ElemItems::Funcs(fidx(2)), explicit_table: true });
+                    m.elems.push(ElemSpec { mode: ElemMode::Active { table, offset: offset.clone() }, ty: tty, items: ElemItems::Exprs(fexprs()), explicit_table: false });
+                    m.elems.push(ElemSpec { mode: ElemMode::Active { table, offset: offset.clone() }, ty: tty, items: ElemItems::Exprs(fexprs()), explicit_table: true });
+                } else {
+                    m.elems.push(ElemSpec { mode: ElemMode::Active { table, offset: offset.clone() }, ty: tty, items: ElemItems::Exprs(eexprs()), explicit_table: true });
+                }
+            }
+        }
+        m.elems.push(ElemSpec { mode: ElemMode::Passive, ty: VT::FuncRef, items: ElemItems::Funcs(fidx(3)), explicit_table: false });
+        m.elems.push(ElemSpec { mode: ElemMode::Passive, ty: VT::FuncRef, items: ElemItems::Exprs(fexprs()), explicit_table: false });
+        m.elems.push(ElemSpec { mode: ElemMode::Passive, ty: VT::ExternRef, items: ElemItems::Exprs(eexprs()), explicit_table: false });
+        m.elems.push(ElemSpec { mode: ElemMode::Passive, ty: VT::FuncRef, items: ElemItems::Funcs(vec![]), explicit_table: false });
+        m.elems.push(ElemSpec { mode: ElemMode::Declared, ty: VT::FuncRef, items: ElemItems::Funcs(fidx(1)), explicit_table: false });
+        m.elems.push(ElemSpec { mode: ElemMode::Declared, ty: VT::FuncRef, items: ElemItems::Exprs(fexprs()), explicit_table: false });
+        for i in 0..3u32 {
+            m.exports.push(Export { name: format!("t{}", i), kind: ExportKind::Table, index: i });
+        }
+        m.exports.push(Export { name: "f".into(), kind: ExportKind::Func, index: 2 });
+        m.exports.push(Export { name: "f_again".into(), kind: ExportKind::Func, index: 2 });
+        m.exports.push(Export { name: "imported_f".into(), kind: ExportKind::Func, index: 0 });
+        m.start = Some(1);
+        out.push(m.clone());
+        // the same without exports and start: nothing is a root except the imported table's segments
+        m.exports.clear();
+        m.start = None;
+        out.push(m);
+    }
+    // --- MVP-only element/data forms (flag 0 only), single table/memory
+    {
+        let mut m = MSpec::default();
+        m.types.push((vec![], vec![]));
+        m.imports.push(Import { module: "env".into(), field: "off".into(), kind: ImportKind::Global(GlobalTy { ty: VT::I32, mutable: false }) });
+        m.tables.push(TableTy { elem: VT::FuncRef, lim: Limits::new(8, Some(8)) });
+        m.memories.push(Limits::new(1, Some(2)));
+        m.funcs.push(FuncSpec { ty: 0, locals: vec![], code: vec![0x0b] });
+        m.elems.push(ElemSpec { mode: ElemMode::Active { table: 0, offset: CExpr::I32(0) }, ty: VT::FuncRef, items: ElemItems::Funcs(vec![0, 0]), explicit_table: false });
+        m.elems.push(ElemSpec { mode: ElemMode::Active { table: 0, offset: CExpr::GlobalGet(0) }, ty: VT::FuncRef, items: ElemItems::Funcs(vec![0]), explicit_table: false });
+        m.datas.push(DataSpec { mode: DataMode::Active { mem: 0, offset: CExpr::I32(8) }, bytes: b"hello".to_vec(), explicit_mem: false });
+        m.datas.push(DataSpec { mode: DataMode::Active { mem: 0, offset: CExpr::GlobalGet(0) }, bytes: vec![], explicit_mem: false });
+        m.data_count = Some(false);
+        m.exports.push(Export { name: "t".into(), kind: ExportKind::Table, index: 0 });
+        m.exports.push(Export { name: "m".into(), kind: ExportKind::Memory, index: 0 });
+        out.push(m);
+    }
+    // --- data segments: flags 0/1/2 x 32/64-bit memory x offset forms x data-count present or not
+    for dc in [Some(true), Some(false)] {
+        let mut m = MSpec::default();
+        m.imports.push(Import { module: "env".into(), field: "o32".into(), kind: ImportKind::Global(GlobalTy { ty: VT::I32, mutable: false }) });
+        m.imports.push(Import { module: "env".into(), field: "o64".into(), kind: ImportKind::Global(GlobalTy { ty: VT::I64, mutable: false }) });
+        m.imports.push(Import { module: "env".into(), field: "imem".into(), kind: ImportKind::Memory(Limits { min: 1, max: None, shared: false, is64: true }) });
+        m.memories.push(Limits::new(1, None));
+        m.memories.push(Limits { min: 2, max: Some(4), shared: true, is64: false });
+        for (mem, is64) in [(0u32, true), (1, false), (2, false)] {
+            for off in [0u8, 1] {
+                let offset = match (is64, off) {
+                    (true, 0) => CExpr::I64(16),
+                    (true, _) => CExpr::GlobalGet(1),
+                    (false, 0) => CExpr::I32(16),
+                    (false, _) => CExpr::GlobalGet(0),
+                };
+                m.datas.push(DataSpec { mode: DataMode::Active { mem, offset }, bytes: vec![mem as u8, off, 0xaa], explicit_mem: true });
+            }
+        }
+        if dc == Some(true) {
+            m.datas.push(DataSpec { mode: DataMode::Passive, bytes: vec![9, 9, 9, 9], explicit_mem: false });
+            m.datas.push(DataSpec { mode: DataMode::Passive, bytes: vec![], explicit_mem: false });
+        }
+        m.data_count = dc;
+        for i in 0..3u32 {
+            m.exports.push(Export { name: format!("m{}", i), kind: ExportKind::Memory, index: i });
+        }
+        out.push(m);
+    }
+    // --- imports of all kinds interleaved, exports of all kinds, duplicate import names
+    {
+        let mut m = MSpec::default();
+        m.types.push((vec![VT::I32], vec![VT::I64]));
+        m.types.push((vec![], vec![]));
+        m.types.push((vec![VT::I32], vec![VT::I64])); // duplicate type
+        m.imports.push(Import { module: "a".into(), field: "f".into(), kind: ImportKind::Func(0) });
+        m.imports.push(Import { module: "a".into(), field: "g".into(), kind: ImportKind::Global(GlobalTy { ty: VT::I64, mutable: true }) });
+        m.imports.push(Import { module: "a".into(), field: "f".into(), kind: ImportKind::Func(2) }); // same name again
+        m.imports.push(Import { module: "".into(), field: "".into(), kind: ImportKind::Table(TableTy { elem: VT::ExternRef, lim: Limits::new(1, Some(1)) }) });
+        m.imports.push(Import { module: "b".into(), field: "m".into(), kind: ImportKind::Memory(Limits::new(0, Some(0))) });
+        m.imports.push(Import { module: "a".into(), field: "h".into(), kind: ImportKind::Func(1) });
+        m.funcs.push(FuncSpec { ty: 1, locals: vec![], code: vec![0x0b] });
+        m.exports.push(Export { name: "".into(), kind: ExportKind::Func, index: 3 });
+        m.exports.push(Export { name: "f0".into(), kind: ExportKind::Func, index: 0 });
+        m.exports.push(Export { name: "f1".into(), kind: ExportKind::Func, index: 1 });
+        m.exports.push(Export { name: "g".into(), kind: ExportKind::Global, index: 0 });
+        m.exports.push(Export { name: "t".into(), kind: ExportKind::Table, index: 0 });
+        m.exports.push(Export { name: "m".into(), kind: ExportKind::Memory, index: 0 });
+        m.start = Some(2);
+        out.push(m);
+    }
+    out.into_iter().map(|m| m.encode()).filter(|b| optable::valid(b)).collect()
+}
+
+pub fn attr_modules() -> &'static Vec<Vec<u8>> {
+    static C: OnceLock<Vec<Vec<u8>>> = OnceLock::new();
+    C.get_or_init(attr_modules_build)
+}
+
+pub fn attr_specs() -> Vec<String> {
+    (0..attr_modules().len()).map(|i| format!("census:attr:{}", i)).collect()
+}
+
+/// Census functions whose operator names an entity (function, global, table, memory, type, data, element):
+/// each alone, exported, in the padded environment - the instruction operand is then the only path to
+/// the entity it names, next to 130 unreferenced siblings.
+pub fn gcedge_op_specs() -> Vec<String> {
+    let tab = optable::table();
+    census_funcs()
+        .iter()
+        .enumerate()
+        .filter(|(_, f)| {
+            tab.iter().find(|e| e.info.name == f.op).map(|e| e.info.fields.iter().any(|(n, t)| *t == "memarg" || *t == "blockty" || matches!(ops::field_ref_kind(n), Some(k) if k != ops::RefKind::Local && k != ops::RefKind::Label))).unwrap_or(false)
+        })
+        .map(|(i, _)| format!("census:gcedge:{}", i))
+        .collect()
+}
+
+pub fn gcedge_op_module(k: usize) -> Option<Vec<u8>> {
+    let f = census_funcs().get(k)?;
+    let mut m = census_env();
+    let t = m.ty(&f.params, &f.results);
+    m.funcs.push(FuncSpec { ty: t, locals: vec![(EXTRA_LOCALS, VT::I32)], code: f.code.clone() });
+    m.exports.push(Export { name: format!("{} [{}]", f.op, f.variant), kind: ExportKind::Func, index: PAD });
+    Some(m.encode())
 }
